@@ -282,7 +282,7 @@ theorem TimeInv.ofFileStart' {s : State} {L : Held} {prio now t : Nat} (tk : Nat
   have h1 := TimeInv.ofFileStartStep tk c hck hc0 hw h hfn
   unfold autoPublish
   split
-  · exact h1.ofPublish now
+  · exact publishTry_elim (P := fun x => TimeInv x ((prio, c) :: L)) _ now (h1.ofPublish now) h1
   · exact h1
 
 theorem TimeInv.ofPkt {s : State} {L : Held} {prio : Nat} {c : Cur} {f : FileDesc} {now idx : Nat} {b : Bool} {e : Enc}
